@@ -84,6 +84,29 @@ def gen_rounds(seed, tier, run):
             out.append(f"insert {a} {lst(pos)} a1:99 n")
         out.append(f"delete {a} {lst([0, tot - 1])} n")
         out.append(f"trim_zeros {a}")
+    # long axes: deletes / repeats / inserts / trims on arrays with 17..100 entries along the axis
+    for sh in ([17], [33], [64], [100], [2, 17], [17, 3], [2, 9, 2]):
+        for ax in range(len(sh)):
+            ln = sh[ax]
+            for _ in range(4):
+                idx = sorted(rng.sample(range(ln), rng.randint(1, min(ln, 9))))
+                rng.shuffle(idx)
+                out.append(f"delete {arr(sh)} {lst(idx)} z{ax}")
+                out.append(f"repeat {arr(sh)} {lst([rng.randint(0, 3) for _ in range(ln)])} z{ax}")
+            out.append(f"repeat {arr(sh)} l2 z{ax}")
+        tot = prod(sh)
+        for _ in range(3):
+            idx = [rng.randrange(tot) for _ in range(rng.randint(1, 12))]
+            out.append(f"delete {arr(sh)} {lst(idx)} n")
+            pos = [rng.randrange(tot + 1) for _ in range(rng.randint(1, 6))]
+            rts.append((len(out), pos))
+            out.append(f"insert {arr(sh)} {lst(pos)} {arr([len(pos)], base=5000)} n")
+        out.append(f"repeat {arr(sh)} l3 n")
+    for L in (9, 17, 33, 64, 100):
+        for _ in range(6):
+            v = [rng.choice([0, 0, 1, 2]) for _ in range(L)]
+            lead, trail = rng.randint(0, 5), rng.randint(0, 5)
+            out.append(f"trim_zeros {arr([L + lead + trail], [0] * lead + v + [0] * trail)}")
     for sh in ([4], [2, 4], [4, 2], [2, 2, 4]):
         for ax in range(len(sh)):
             for cnt in itertools.product(range(3), repeat=sh[ax]):
